@@ -57,9 +57,9 @@ PROP = {'engine': 'c19',
  'level_note': 'exploration: seeded histories x repetitions under the scheduler\'s interleavings widened by yield/sleep injection; no claim of schedule '
                'coverage. Masking risk: a new race on an already-known pair of functions is not distinguished from the known finding. Linearizability '
                'modulo the node\'s own signature on stable blocks and modulo the kind of refusal.',
- 'min_cases': {'quick': 100, 'thorough': 1800},
+ 'min_cases': {'quick': 100, 'thorough': 3600},
  'min_stats': {'quick': {'overlapping_request_pairs': 150, 'stable_heights_advanced': 60, 'mine_produced_block': 8, 'emitted_confirms_checked': 100,
                          'lin_searches': 100, 'reads': 3000},
-               'thorough': {'overlapping_request_pairs': 3000, 'stable_heights_advanced': 1200, 'mine_produced_block': 150, 'emitted_confirms_checked': 2000,
-                            'lin_searches': 1800, 'reads': 60000}},
+               'thorough': {'overlapping_request_pairs': 6000, 'stable_heights_advanced': 2400, 'mine_produced_block': 300, 'emitted_confirms_checked': 4000,
+                            'lin_searches': 3600, 'reads': 120000}},
  'timeout_s': {'quick': 600, 'thorough': 3600}}
